@@ -48,6 +48,15 @@ SPECS = {
         search=False,
         explanation="histories of op/3 calls: outcome of every call and the whole table after every call compared with the model; ISO restrictions and failed-call-is-noop evaluated on the enumerated table; reader probed",
     ),
+    "C20": dict(
+        level="proof", props_deps=["Proofs/Loader.v"], model_deps=["Model/LoaderCheck.v"],
+        trusted=COMMON_TRUSTED + ["hand-written Model/Loader.v (VM.Compile / compile / directive / text.flush / forEachUserDefined of engine/text.go over the sequence of read terms; clauses abstracted to (predicate, identity)), tied by the correspondence run",
+                                  "the reader, term expansion and clause compilation are not modelled: a read term is an item (clause of p, declaration, directive, fault)"],
+        assumptions=["directives are free of database effects (the property's quantifier); include/1 and ensure_loaded/1 inside a text are not generated",
+                     "a failing initialization goal is reported after the commit, as the property places initialization goals after the load"],
+        search=False,
+        explanation="histories of loads (Exec and consult/1) and assertz calls on one interpreter, every fault kind swept over the positions of a text; error kind, output and the clause lists of all predicates after every operation compared with the model and with the property read as a specification",
+    ),
     "C12": dict(
         level="proof", props_deps=["Proofs/Solutions.v"], model_deps=["Model/SolutionsCheck.v"],
         trusted=COMMON_TRUSTED + ["hand-written handshake model Model/Solutions.v under run-to-block semantics; Go channels, scheduler and memory model are not modelled"],
